@@ -1163,3 +1163,27 @@ Proof.
     destruct (marked m' p) eqn:Hmk; [|reflexivity].
     destruct (proj1 E eq_refl) as [_ [Hx|Hx]]; [congruence|contradiction].
 Qed.
+
+(* ------------------------------------------------------------------ non-vacuity of the collection-point theorems:
+   the example heap as a state with mitems = 6; allocating a seventh registered object (a Ref
+   to w56 at address 64) crosses the threshold, so the collection runs inside alloc *)
+Definition w64 : word := 64%N.
+Definition ex_state : state :=
+  {| st_heap := ex_heap; st_reg := ex_reg; st_order := ex_order; st_mitems := 6;
+     st_minptr := w8; st_maxptr := w56; st_tls := ex_tls; st_stack := ex_stack |}.
+Definition ex_event : event := EAlloc w64 (mk_contents KRef [w56]) false.
+Definition ex_state1 : state := alloc_state ex_state w64 (mk_contents KRef [w56]) false.
+
+Lemma ex_threshold_point :
+  event_ok ex_state ex_event /\
+  collection_point ex_state ex_event = Some (ex_state1, [w64]) /\ inv ex_state1 /\ heap_ok ex_state1 /\
+  exists s', step true true ex_state ex_event = Ok (s', []).
+Proof.
+  split; [|split; [|split; [|split]]].
+  - split; [vm_compute; reflexivity|split; [discriminate|vm_compute; reflexivity]].
+  - reflexivity.
+  - split; [apply range_b_sound|apply order_b_sound]; vm_compute; reflexivity.
+  - split; [apply wf_b_sound; vm_compute; reflexivity|].
+    exists (fun _ => 0). split; [intros p; lia|apply rawdec_b_sound; vm_compute; reflexivity].
+  - eexists. vm_compute. reflexivity.
+Qed.
